@@ -26,6 +26,7 @@ def run(repo, run, tier):
     end_slopes(repo, run)
     selection(repo, run)
     slope_cache(repo, run)
+    slope_cache_dropped_between_calls(repo, run)
     containers(repo, run)
     evaluation_paths(repo, run)
     cache_invalidation(repo, run)
@@ -236,6 +237,57 @@ def slope_cache(repo, run, rule_id="C06.3"):
         node = [st for st in walk_no_nested(sc) if isinstance(st, ast.If) and "final_rhs" in src(st.test)]
         run.report(rule_id, ITY, node[0] if node else sc, "the splitting integrator computes final_rhs only when it is None and never invalidates it: every piece after the first "
                                                           "ends with the slope of the FIRST step", text="splitting final_rhs computed once")
+
+
+def slope_cache_dropped_between_calls(repo, run, rule_id="C06.17"):
+    """'... and after continued calls': the end slope an integrator keeps is keyed by the time and the state it was computed at - not by the right-hand side and the
+    constants, which the caller can replace between two integrate() calls (OdeSystem.constants has a setter, and the dict can be mutated in place).  Whenever an
+    integrator's __call__ reuses a kept slope, integrate() therefore drops that slope before its step loop, for the integrator and for the basis integrators of a
+    Richardson wrapper; the first piece of a continued call then starts with the right-hand side as it is NOW at the recorded state."""
+    from ..imodel import IntegrateModel, path_key
+    rid = run.rule(rule_id, "a slope kept across steps and reused by an integrator's __call__ is dropped by integrate() before the step loop (integrator and basis integrators)", floor=1)
+    reused = {}
+    for owner in (extract.RK, extract.SPLIT):
+        call = repo.get(ITY, owner + ".__call__")
+        for st in walk_no_nested(call):
+            if isinstance(st, ast.Assign) and any(is_self_attr(t, "initial_rhs") for t in st.targets) and is_self_attr(st.value) and st.value.attr != "initial_rhs":
+                reused.setdefault(st.value.attr, []).append((owner, st))
+    m = IntegrateModel(repo)
+    kl = path_key(m.loop, m.fn)
+    dropped = {}
+    for st in m.fn.body:
+        if path_key(st, m.fn) >= kl:
+            break
+        if isinstance(st, ast.Assign) and isinstance(st.value, ast.Constant) and st.value.value is None:
+            for t in st.targets:
+                if isinstance(t, ast.Attribute) and src(t.value) == "self.integrator":
+                    dropped.setdefault(t.attr, set()).add("self")
+        if isinstance(st, ast.For) and isinstance(st.target, ast.Name) and isinstance(st.iter, (ast.Tuple, ast.List)) and not st.orelse:
+            who = set()
+            for e in st.iter.elts:
+                if src(e) == "self.integrator":
+                    who.add("self")
+                if isinstance(e, ast.Starred) and "basis_integrators" in src(e.value) and "self.integrator" in src(e.value):
+                    who.add("basis")
+            for b in st.body:
+                if isinstance(b, ast.Assign) and isinstance(b.value, ast.Constant) and b.value.value is None:
+                    for t in b.targets:
+                        if isinstance(t, ast.Attribute) and isinstance(t.value, ast.Name) and t.value.id == st.target.id:
+                            dropped.setdefault(t.attr, set()).update(who)
+    if not reused:
+        run.judged(rid, "no integrator reuses a kept slope", ok=True)
+    for attr, sites in sorted(reused.items()):
+        got = dropped.get(attr, set())
+        ok = got >= {"self", "basis"}
+        run.judged(rid, "kept slope `%s` (reused in %s) is dropped before the step loop of integrate() for %s" % (attr, sorted({o for o, _ in sites}), sorted(got) or "nobody"), ok=ok)
+        if not ok:
+            owner, st = sites[0]
+            run.report(rule_id, ITY, st, ("[%s] " % owner) + "the slope kept at the end of the previous step (`self.%s`) is reused as the start slope of a step whenever time and state match, and "
+                                         "integrate() does not drop it before its step loop%s: after `system.constants = ...` (or an in-place change of the constants / of the right-hand "
+                                         "side) between two integrate() calls the first piece of the continued call starts with the slope of the OLD right-hand side - its start "
+                                         "slope is not the right-hand side at the recorded state, and the interpolation error inside that step is O(h) * |change of f| instead of O(h^4)" % (
+                                             attr, "" if not got else " for %s" % sorted({"self", "basis"} - got)),
+                       text="kept slope %s survives into the next integrate() call" % attr)
 
 
 def _keyed_reuse(repo, run, rid, owner):
